@@ -362,6 +362,10 @@ impl Cartesian<'_> {
             return Err("Stopped".into());
         }
 
+        if !self.include_linear_interpolation {
+            // Interpolated poses were needed for the checks above but are not wanted in the output.
+            trace.retain(|step| !step.flags.contains(PathFlags::LIN_INTERP));
+        }
         Ok(trace)
     }
 
